@@ -347,9 +347,16 @@ func verifDir() string {
 func (c *Ctx) finish(level, explanation string) int {
 	vd := verifDir()
 	ks, _ := readKnown(filepath.Join(vd, "known_findings.txt"))
+	// Vacuity guard. c.min records the hand-confirmed instance count on the pinned tree; the alarm threshold is 60 % of
+	// it (at least 1), so that a refactor which legitimately merges or removes a few instances does not raise a false
+	// alarm while a rule that stops matching altogether (renamed anchor, unrecognised idiom) still fails the check.
 	for rule, m := range c.minima {
-		if c.counts[rule] < m {
-			c.fatal = append(c.fatal, fmt.Sprintf("UNDECIDED %s: only %d rule instances found, hand-confirmed minimum is %d (anchor moved or idiom not recognised)", rule, c.counts[rule], m))
+		floor := m * 6 / 10
+		if floor < 1 {
+			floor = 1
+		}
+		if c.counts[rule] < floor {
+			c.fatal = append(c.fatal, fmt.Sprintf("UNDECIDED %s: only %d rule instances found, hand-confirmed count is %d, alarm threshold %d (anchor moved or idiom not recognised)", rule, c.counts[rule], m, floor))
 		}
 	}
 	sort.SliceStable(c.obs, func(i, j int) bool {
@@ -429,7 +436,7 @@ func (c *Ctx) finish(level, explanation string) int {
 	sort.Strings(c.rulesDoc)
 	minima := map[string]string{}
 	for r, m := range c.minima {
-		minima[r] = fmt.Sprintf("%d found, minimum %d", c.counts[r], m)
+		minima[r] = fmt.Sprintf("%d found, hand-confirmed %d, alarm below %d", c.counts[r], m, maxInt(1, m*6/10))
 	}
 	seed := 0
 	fmt.Sscan(os.Getenv("VERIF_SEED"), &seed)
@@ -478,4 +485,11 @@ func nonNil(s []string) []string {
 		return []string{}
 	}
 	return s
+}
+
+func maxInt(a, b int) int {
+	if a > b {
+		return a
+	}
+	return b
 }
